@@ -140,6 +140,27 @@ CHECKS["C13"] = (
     "Trusts ATen schema write annotations; with weight caching on, a 1e-12 difference from the cache fill order is tolerated (C10 owns caching).",
     "DESIGN.md section 3 C13")
 
+CHECKS["C15"] = (
+    "twin monitor: model A (seed s1, after a pre-save history) vs model B built from the same constructor arguments under another "
+    "seed and loaded with A's state dict (strict, through torch.save/load in a BytesIO); identical call sequences (training-mode "
+    "forward first, then eval forward / inverse / log_prob / sample under a common re-seed) must give bit-identical results and "
+    "state dicts",
+    "All zoo transform families (every source of constructor-time randomness), generic and packaged flows and all distribution classes, "
+    "pre-save histories {fresh, training steps, data-dependent initialisation, eval calls filling caches}; results compared with "
+    "torch.equal-on-bits; key sets compared; cases where B agreed with A even before loading are reported as trivial.",
+    "Bitwise comparison is meaningful because both models run single-threaded in one process with identical inputs.",
+    "DESIGN.md section 3 C15")
+CHECKS["C16"] = (
+    "finite-difference monitor in float64: directional derivatives from back-propagation vs Richardson-extrapolated central "
+    "differences (h, h/2 with kink detection and resampling) - jointly over all parameters, per parameter tensor, for inputs and "
+    "context; back-propagation executed twice (also after an inverse call filled a weight cache first); finiteness at inputs with exact zeros",
+    "Relative agreement 1e-5 (observed <= 4e-9) for the whole transform zoo with smooth conditioners and small flows, both directions, "
+    "training and evaluation mode; a parameter whose finite difference is non-zero must receive a finite gradient; backward must "
+    "succeed repeatedly.",
+    "UMNN to its declared quadrature accuracy; with weight caching on (eval) only input/context gradients are promised (cached weights are "
+    "detached by design of the fix d9b1ce6); dropout off; UMNN bisection inverse not differentiated.",
+    "DESIGN.md section 3 C16")
+
 PENDING_REASON = "check not built yet in this session (planned, see DESIGN.md section 3); not claimed until it exists and is calibrated"
 
 
